@@ -155,7 +155,9 @@ func (h *hoister) hoistFrom(s ast.Stmt, exprs []ast.Expr) *ast.AssignStmt {
 	h.n++
 	name := fmt.Sprintf("%s·%d", callee.Obj.Name(), h.n)
 	def := &ast.Ident{NamePos: first.Pos(), Name: name}
-	use := &ast.Ident{NamePos: first.Pos(), Name: name}
+	// (the use is placed at the end of the call it replaces, so that position-ordered look-ups see the
+	// definition — which spans the call — strictly before it)
+	use := &ast.Ident{NamePos: first.End(), Name: name}
 	v := types.NewVar(first.Pos(), h.pkg, name, tv.Type)
 	if inner := h.pkg.Scope().Innermost(first.Pos()); inner != nil {
 		sc := types.NewScope(inner, s.Pos(), inner.End(), "hoisted")
